@@ -44,6 +44,17 @@
 //!     a hit through h2 AND through h3 (a file on disk that a handle does not serve is a file its instance does not track);
 //!     finally h2 and h3 must be the same instance (`Arc::ptr_eq`).  Also two get_cache calls in the first generation.
 //!     No file is renamed or planted here (see the recorded finding mentioned under S7).
+//!  S9 API edges and histories, sequential: (a) `DiskCache::initialize` / `get_cache` with cache_size 0 (no panic) and on a
+//!     directory path that does not exist yet (three levels deep); (b) eleven malformed puts (empty / inverted range, offsets too
+//!     few / too many / not starting at 0 / not ending at the data length / not strictly increasing / empty) and inverted gets: no
+//!     panic, counters == directory afterwards, a whole-range hit after a put that was ACCEPTED returns exactly the data and
+//!     offsets put, the neighbours stay correct; (c) adjacent ranges [0,4) + [4,8): gets spanning the seam are never hits, then
+//!     the encompassing [0,8) replaces both, then nested [2,6) adds nothing; (d) a re-put of a cached range with DIFFERENT bytes
+//!     of the same lengths, and of a sub-range with other chunk lengths: whatever the put returns, a later hit equals what the
+//!     last ACCEPTED put stored; (e) put A, fill a small cache until A's file has been evicted, re-open, put A again, get A;
+//!     (f) re-open with leftovers: empty key directory, empty prefix directory, a key directory holding only a `.x.tmp` leftover,
+//!     dangling symlinks / symlinks to a directory / to a genuine item file at root, prefix and key level, a copy of the genuine key
+//!     directory under the prefix directory with swapped letter case.
 //!  S5 (last, can be skipped with VERIF_C12_SKIP_FOREIGN_DIRS=1) directories with foreign names inside a prefix directory.
 //!
 //! Deterministic inputs from VERIF_SEED (default 0); thread schedules are whatever the machine produces, so the races are
@@ -1114,6 +1125,281 @@ fn s8_get_cache(seed: u64) -> W {
     Ok(())
 }
 
+/// S9: API edges and histories
+fn s9_api_edges(seed: u64) -> W {
+    let cap = 1u64 << 20;
+    // (a) capacity 0, directory that does not exist yet
+    {
+        let dir = tmp();
+        let cfg = CacheConfig { cache_directory: dir.path().to_path_buf(), cache_size: 0 };
+        let _ = guarded("S9a: DiskCache::initialize(cache_size=0)", || DiskCache::initialize(&cfg).map(|_| ()))?;
+        let _ = guarded("S9a: get_cache(cache_size=0)", || chunk_cache::get_cache(&cfg).map(|_| ()))?;
+        let deep = dir.path().join("not").join("yet").join("there");
+        let ctx = "S9a: DiskCache::initialize on a directory path that does not exist (three levels deep)".to_string();
+        let c = open_clean(&deep, cap, &ctx)?;
+        let k = 9800 + 3 * seed + 1;
+        if !put(&c, k, 0, 3, &ctx)? || !get(&c, k, 0, 3, true, &ctx)? {
+            return Err(format!("{ctx}: put + get of key#{k} [0,3) is not a hit"));
+        }
+        check_accounting(&c, &deep, Some(cap), &ctx)?;
+        drop(c);
+        let c = open_clean(&deep, cap, &format!("{ctx}; re-opened"))?;
+        if !get(&c, k, 0, 3, true, &ctx)? {
+            return Err(format!("{ctx}: after re-opening the item is not a hit"));
+        }
+    }
+    // (b) malformed arguments
+    {
+        let dir = tmp();
+        let root = dir.path();
+        let k = 9810 + 3 * seed + 1;
+        let ctx0 = format!("S9b seed {seed}: cache holding key#{k} [0,4) and [10,12)");
+        let c = open_clean(root, cap, &ctx0)?;
+        put(&c, k, 0, 4, &ctx0)?;
+        put(&c, k, 10, 12, &ctx0)?;
+        let (off, data) = payload(k, 20, 24);
+        let n = data.len() as u32;
+        let mut short = off.clone();
+        short.pop();
+        let mut long = off.clone();
+        long.push(n + 5);
+        let mut first = off.clone();
+        first[0] = 1;
+        let mut last_short = off.clone();
+        *last_short.last_mut().unwrap() = n - 1;
+        let mut last_long = off.clone();
+        *last_long.last_mut().unwrap() = n + 1;
+        let mut flat = off.clone();
+        flat[2] = flat[1];
+        let mut down = off.clone();
+        down.swap(1, 2);
+        let cases: Vec<(&str, ChunkRange, Vec<u32>, Vec<u8>)> = vec![
+            ("empty range [20,20)", r(20, 20), off.clone(), data.clone()),
+            ("inverted range [24,20)", r(24, 20), off.clone(), data.clone()),
+            ("one offset too few", r(20, 24), short, data.clone()),
+            ("one offset too many", r(20, 24), long, data.clone()),
+            ("first offset 1", r(20, 24), first, data.clone()),
+            ("last offset one below the data length", r(20, 24), last_short, data.clone()),
+            ("last offset one above the data length", r(20, 24), last_long, data.clone()),
+            ("two equal offsets (a zero-length chunk)", r(20, 24), flat, data.clone()),
+            ("offsets not increasing", r(20, 24), down, data.clone()),
+            ("no offsets, no data", r(20, 24), vec![], vec![]),
+            ("a single offset 0, no data, range [20,21)", r(20, 21), vec![0], vec![]),
+        ];
+        let mut accepted = false;
+        for (what, range, o, d) in cases {
+            if accepted {
+                break;
+            }
+            let ctx = format!("{ctx0}; put(key#{k}, [{},{}), offsets {:?}, {} bytes) - {what}", range.start, range.end, if o.len() > 6 { &o[..6] } else { &o[..] }, d.len());
+            let key = key_of(k);
+            let res = guarded(&ctx, || c.put(&key, &range, &o, &d))?;
+            check_accounting(&c, root, Some(cap), &format!("{ctx} returned {}", if res.is_ok() { "Ok" } else { "an error" }))?;
+            if res.is_ok() && range.start < range.end {
+                if let Ok(Some(hit)) = guarded(&ctx, || c.get(&key, &range))? {
+                    if hit.data.as_ref() != d.as_slice() || hit.offsets.as_ref() != o.as_slice() {
+                        return Err(format!("{ctx} was accepted, and a get of the same range returns {} bytes / offsets {:?}, not what was put", hit.data.len(), hit.offsets));
+                    }
+                }
+                // accepted (HEAD rejects all of these): what it stored is consistent with what was put; the remaining cases
+                // would collide with it, so they are skipped
+                eprintln!("note: {ctx} was accepted");
+                accepted = true;
+            }
+            for (gs, ge) in [(20u32, 20u32), (24, 20), (5, 2)] {
+                let key = key_of(k);
+                match guarded(&format!("{ctx}; get(key#{k}, [{gs},{ge}))"), || c.get(&key, &r(gs, ge)))? {
+                    Ok(Some(_)) => return Err(format!("{ctx}: get of the empty / inverted range [{gs},{ge}) is a hit")),
+                    _ => {},
+                }
+            }
+            if !get(&c, k, 0, 4, true, &ctx)? || !get(&c, k, 10, 12, true, &ctx)? || !get(&c, k, 1, 3, true, &ctx)? {
+                return Err(format!("{ctx}: afterwards the genuine entries [0,4) / [10,12) are no longer hits"));
+            }
+        }
+        if !put(&c, k, 30, 34, &ctx0)? || !get(&c, k, 30, 34, true, &ctx0)? {
+            return Err(format!("{ctx0}: after the malformed puts a well-formed put + get of [30,34) is not a hit"));
+        }
+        check_accounting(&c, root, Some(cap), &format!("{ctx0}; after all malformed puts and a good one"))?;
+    }
+    // (c) adjacent ranges
+    {
+        let dir = tmp();
+        let root = dir.path();
+        let k = 9820 + 3 * seed + 1;
+        let ctx = format!("S9c seed {seed}: puts of the adjacent ranges key#{k} [0,4) and [4,8)");
+        let c = open_clean(root, cap, &ctx)?;
+        put(&c, k, 0, 4, &ctx)?;
+        put(&c, k, 4, 8, &ctx)?;
+        check_accounting(&c, root, Some(cap), &ctx)?;
+        for (gs, ge) in [(0u32, 8u32), (3, 5), (2, 6), (0, 5), (3, 8), (7, 9)] {
+            get(&c, k, gs, ge, false, &ctx)?; // no single stored range covers these: a hit is flagged by get()
+        }
+        for (gs, ge) in [(0u32, 4u32), (4, 8), (1, 3), (5, 8), (3, 4), (4, 5)] {
+            if !get(&c, k, gs, ge, true, &ctx)? {
+                return Err(format!("{ctx}: get [{gs},{ge}) is not a hit"));
+            }
+        }
+        let ctx = format!("{ctx}; then the encompassing [0,8)");
+        put(&c, k, 0, 8, &ctx)?;
+        check_accounting(&c, root, Some(cap), &ctx)?;
+        if files_below(root).len() != 1 {
+            return Err(format!("{ctx}: the directory holds {} files, expected the one encompassing item", files_below(root).len()));
+        }
+        for (gs, ge) in [(0u32, 8u32), (3, 5), (2, 6), (0, 4), (4, 8)] {
+            if !get(&c, k, gs, ge, true, &ctx)? {
+                return Err(format!("{ctx}: get [{gs},{ge}) is not a hit"));
+            }
+        }
+        let ctx = format!("{ctx}; then the nested [2,6)");
+        put(&c, k, 2, 6, &ctx)?;
+        check_accounting(&c, root, Some(cap), &ctx)?;
+        if files_below(root).len() != 1 {
+            return Err(format!("{ctx}: the directory holds {} files, the nested put should have added nothing", files_below(root).len()));
+        }
+    }
+    // (d) conflicting re-puts
+    {
+        let dir = tmp();
+        let root = dir.path();
+        let k = 9830 + 3 * seed + 1;
+        let key = key_of(k);
+        let ctx = format!("S9d seed {seed}: key#{k} [0,4) cached");
+        let c = open_clean(root, cap, &ctx)?;
+        put(&c, k, 0, 4, &ctx)?;
+        let (off, data) = payload(k, 0, 4);
+        let mut other = data.clone();
+        for x in other.iter_mut() {
+            *x = x.wrapping_add(1);
+        }
+        let res = guarded(&ctx, || c.put(&key, &r(0, 4), &off, &other))?;
+        let current = if res.is_ok() { &other } else { &data };
+        let ctx = format!("{ctx}; put of the same range with the same chunk lengths but different bytes returned {}", if res.is_ok() { "Ok" } else { "an error" });
+        match guarded(&ctx, || c.get(&key, &r(0, 4)))? {
+            Ok(Some(hit)) if hit.data.as_ref() != current.as_slice() || hit.offsets.as_ref() != off.as_slice() => {
+                return Err(format!("{ctx}: a later get returns bytes that are not those of the last accepted put"))
+            },
+            _ => {},
+        }
+        check_accounting(&c, root, Some(cap), &ctx)?;
+        // a sub-range with other chunk lengths (two chunks of 3 and 5 bytes where the cached ones differ)
+        let res = guarded(&ctx, || c.put(&key, &r(1, 3), &[0, 3, 8], &[9u8; 8]))?;
+        let ctx = format!("{ctx}; put(key#{k}, [1,3), offsets [0,3,8], 8 bytes of 0x09) returned {}", if res.is_ok() { "Ok" } else { "an error" });
+        if let Ok(Some(hit)) = guarded(&ctx, || c.get(&key, &r(0, 4)))? {
+            if hit.data.as_ref() != current.as_slice() {
+                return Err(format!("{ctx}: get [0,4) now returns other bytes than the last accepted put of [0,4)"));
+            }
+        }
+        if let Ok(Some(hit)) = guarded(&ctx, || c.get(&key, &r(1, 3)))? {
+            let want_old = &current[off[1] as usize..off[3] as usize];
+            let fine = hit.data.as_ref() == want_old || (res.is_ok() && hit.data.as_ref() == [9u8; 8]);
+            if !fine {
+                return Err(format!("{ctx}: get [1,3) returns {} bytes that are neither the cached slice nor the accepted new data", hit.data.len()));
+            }
+        }
+        check_accounting(&c, root, Some(cap), &ctx)?;
+    }
+    // (e) put, evict, re-open, put the same key again
+    {
+        let dir = tmp();
+        let root = dir.path();
+        let k = 9840 + 3 * seed + 1; // chunks of at most 150 bytes
+        let small = 4 * item_size_bound(k, 0, 8);
+        let ctx = format!("S9e seed {seed}: capacity {small}; put(key#{k}, [0,8))");
+        let c = open_clean(root, small, &ctx)?;
+        put(&c, k, 0, 8, &ctx)?;
+        let file_a = files_below(root)[0].0.clone();
+        let mut fills = 0u64;
+        while file_a.exists() && fills < 400 {
+            let kk = 9850 + 3 * (fills % 50) + 1;
+            let s0 = 10 * (fills / 50) as u32;
+            if item_size_bound(kk, s0, s0 + 6) <= small {
+                put(&c, kk, s0, s0 + 6, &ctx)?;
+                check_accounting(&c, root, Some(small), &format!("{ctx}; filling put #{fills}"))?;
+            }
+            fills += 1;
+        }
+        if file_a.exists() {
+            eprintln!("S9e: the item was not evicted by {fills} further puts");
+        }
+        let ctx = format!("{ctx}; {fills} further puts until its file was evicted");
+        get(&c, k, 0, 8, true, &ctx)?;
+        drop(c);
+        let ctx = format!("{ctx}; re-opened; put of the same item again");
+        let c = open_clean(root, small, &ctx)?;
+        check_accounting(&c, root, None, &format!("{ctx} (right after re-opening)"))?;
+        if !put(&c, k, 0, 8, &ctx)? {
+            return Err(format!("{ctx}: the put failed"));
+        }
+        check_accounting(&c, root, Some(small), &ctx)?;
+        if !get(&c, k, 0, 8, true, &ctx)? || !get(&c, k, 2, 5, true, &ctx)? {
+            return Err(format!("{ctx}: the item is not a hit"));
+        }
+    }
+    // (f) leftovers of further kinds
+    {
+        let dir = tmp();
+        let root = dir.path();
+        let k = 9900 + 3 * seed + 1;
+        let ctx0 = format!("S9f seed {seed}: item key#{k} [2,6)");
+        let c = open_clean(root, cap, &ctx0)?;
+        put(&c, k, 2, 6, &ctx0)?;
+        drop(c);
+        let file = files_below(root)[0].0.clone();
+        let key_dir = file.parent().unwrap_or(root).to_path_buf();
+        let prefix_dir = key_dir.parent().unwrap_or(root).to_path_buf();
+        let key_name = key_dir.file_name().and_then(|n| n.to_str()).unwrap_or("").to_string();
+        let prefix_name = prefix_dir.file_name().and_then(|n| n.to_str()).unwrap_or("").to_string();
+        let io = |r: std::io::Result<()>| r.unwrap_or_else(|e| infra(format!("S9f: {e}")));
+        // an empty key directory and one holding only a temp leftover (valid key names: the genuine one with its last hash byte varied)
+        let mut raw = b64_url_decode(&key_name);
+        for (i, leftover) in [None, Some(".x.AbCdEfGhIj.tmp")].into_iter().enumerate() {
+            raw[31] = raw[31].wrapping_add(1 + i as u8);
+            let name = b64_url(&raw);
+            let d = root.join(&name[..2]).join(&name);
+            io(std::fs::create_dir_all(&d));
+            if let Some(l) = leftover {
+                io(std::fs::write(d.join(l), b"half written"));
+            }
+        }
+        io(std::fs::create_dir(root.join("zz")));
+        let sym = |target: &Path, link: PathBuf| {
+            let _ = std::os::unix::fs::symlink(target, link);
+        };
+        for level in [root.to_path_buf(), prefix_dir.clone(), key_dir.clone()] {
+            sym(Path::new("/nonexistent/target"), level.join("dangling-link"));
+            sym(root, level.join("link-to-the-cache-root"));
+            sym(&file, level.join("link-to-the-genuine-item"));
+            sym(&file, level.join(item_name(40, 42, 100, 1)));
+            sym(&key_dir, level.join(format!("{prefix_name}link")));
+        }
+        // a copy of the genuine key directory under the prefix directory with swapped letter case (accepted by the scan's
+        // case-insensitive prefix comparison, but not where that key's files are looked up)
+        let swapped: String = prefix_name.chars().map(|ch| if ch.is_ascii_lowercase() { ch.to_ascii_uppercase() } else { ch.to_ascii_lowercase() }).collect();
+        if swapped != prefix_name {
+            let d = root.join(&swapped).join(&key_name);
+            io(std::fs::create_dir_all(&d));
+            io(std::fs::copy(&file, d.join(file.file_name().unwrap_or_default())).map(|_| ()));
+        }
+        let ctx = format!("{ctx0}; cache closed; planted: an empty key directory, a key directory holding only '.x.AbCdEfGhIj.tmp', an empty prefix directory 'zz', symlinks (dangling, to the cache root, to the genuine item file under a junk name and under a well-formed item name, to the genuine key directory) at root / prefix / key level, a copy of the genuine key directory under prefix directory '{swapped}'; re-opened");
+        let Some(c) = open(root, cap, &ctx)? else {
+            return Err(format!("{ctx}: DiskCache::initialize fails because of the planted entries, the genuine entry is no longer served"));
+        };
+        for (gs, ge) in [(2u32, 6u32), (3, 5)] {
+            if !get(&c, k, gs, ge, true, &ctx)? {
+                return Err(format!("{ctx}: the genuine entry is no longer served (get [{gs},{ge}) is not a hit)"));
+            }
+        }
+        get(&c, k, 40, 42, false, &ctx)?;
+        get(&c, k, 0, 1, false, &ctx)?;
+        put(&c, k, 10, 12, &ctx)?;
+        if !get(&c, k, 10, 12, true, &ctx)? {
+            return Err(format!("{ctx}: a put + get after the re-open is not a hit"));
+        }
+    }
+    Ok(())
+}
+
 /// S5: directories with foreign names inside a prefix directory (`<p>` = the 2-character name of the prefix directory):
 /// `<p>AA` is valid base64 of 3 bytes, i.e. shorter than a key; the other two do not start with `<p>`.
 /// All violations found are reported together.
@@ -1196,6 +1482,10 @@ fn run(seed: u64) -> W {
     if on("S8") {
         s8_get_cache(seed)?;
         eprintln!("S8 done at {:?}", t.elapsed());
+    }
+    if on("S9") {
+        s9_api_edges(seed)?;
+        eprintln!("S9 done at {:?}", t.elapsed());
     }
     if on("S5") && std::env::var("VERIF_C12_SKIP_FOREIGN_DIRS").map_or(true, |v| v != "1") {
         s5_foreign_directories(seed)?;
